@@ -201,7 +201,11 @@ impl Pos {
         if parts.len() > 4 {
             p.halfmove = parts[4].parse().map_err(|_| format!("bad fen halfmove: {}", fen))?;
         }
-        // field 6 (full-move number) is ignored: the model counts plies from the seed
+        // field 6 (full-move number N): plies played = 2 (N - 1) + (1 if black is to move)
+        if parts.len() > 5 {
+            let n: u32 = parts[5].parse().map_err(|_| format!("bad fen fullmove: {}", fen))?;
+            p.ply = 2 * n.saturating_sub(1) + if p.stm == Side::Black { 1 } else { 0 };
+        }
         Ok(p)
     }
 
